@@ -152,6 +152,26 @@ func c19Error(r *core.Result, vals []banderwagon.Element, bad int, desc string) 
 			break
 		}
 	}
+	// the same batch without the bad element, right after the failed call: nothing of it may be left behind
+	good := append([]banderwagon.Element(nil), vals...)
+	ptrs := make([]*banderwagon.Element, L)
+	for i := range good {
+		ptrs[i] = &good[i]
+	}
+	if !guard(r, "c19.panic", "banderwagon.BatchNormalize", desc+", then the valid batch", func() { err = banderwagon.BatchNormalize(ptrs) }) {
+		return
+	}
+	r.Evals++
+	if err != nil {
+		vio(r, "c19.error", "banderwagon.BatchNormalize", desc+", then the same batch without the bad element", "success", "error: "+err.Error())
+		return
+	}
+	for i := range good {
+		if !good[i].Equal(&vals[i]) || good[i].Bytes() != vals[i].Bytes() {
+			vio(r, "c19.batch", "banderwagon.BatchNormalize", desc+", then the same batch without the bad element", fmt.Sprintf("element %d unchanged as a group element", i), "changed")
+			break
+		}
+	}
 }
 
 func init() {
@@ -258,10 +278,15 @@ func c19Units(ctx *core.Ctx) []core.Unit {
 		needRef()
 		c := conf()
 		defer setCPU(0)
-		for _, L := range []int{1, 2, 3, 4, 5, 16, 17, 33} {
+		for _, L := range []int{1, 2, 3, 4, 5, 16, 17, 33, 64, 300} {
 			vals := make([]banderwagon.Element, L)
 			for i := range vals {
-				vals[i] = reprOf(c.SRS[i], 1+i%3)
+				vals[i] = reprOf(c.SRS[i%256], 1+i%3)
+			}
+			if L >= 5 {
+				// both representatives of the identity class, in projective form, take part in the failing batch
+				vals[1] = reprOf(func() banderwagon.Element { var e banderwagon.Element; e.SetIdentity(); return e }(), reprProj)
+				vals[3] = reprOf(func() banderwagon.Element { var e banderwagon.Element; e.SetIdentity(); return e }(), reprProjFlip)
 			}
 			for bad := 0; bad < L; bad++ {
 				for _, cpu := range []int{1, 2, 16} {
